@@ -78,6 +78,8 @@ def c07(chk):
                 c = ol.rand_case(rng, order, d, n, flags=f, k=k % 900,
                                  steps=rng.choice([1, 2, 7, 64] if chk.thorough() else [1, 2, 5]))
                 c.spec = ol.rand_spec(rng, zero_some=(rng.random() < 0.5))
+                if abs(c.t0) > 1e8:
+                    c.spec['kt'] = 0.0      # wall-clock start time: cost independent of global time (see optlib.rand_case)
                 if rng.random() < 0.1:
                     c.x = ol.tiny_x(rng, c)           # durations decoding below one millisecond
                     chk.count('decoded durations below 1 ms')
@@ -175,6 +177,8 @@ def c08(chk):
                 for _ in range(2 if not chk.thorough() else 5):
                     c = ol.rand_case(rng, order, d, n, k=k % 900, steps=rng.choice([1, 2, 3, 8, 64] if chk.thorough() else [1, 2, 3, 8]))
                     c.spec = ol.rand_spec(rng, zero_some=False)
+                    if abs(c.t0) > 1e8:
+                        c.spec['kt'] = 0.0      # wall-clock start time: cost independent of global time (see optlib.rand_case)
                     if rng.random() < 0.2:
                         c.x = ol.tiny_x(rng, c)       # durations decoding below one millisecond
                         chk.count('decoded durations below 1 ms')
@@ -580,6 +584,7 @@ def c12(chk):
                           c.describe(), {'schedule': sc, 'serial_cost': float(fv(a['cost'])[0]), 'cost': float(fv(b['cost'])[0])})
     c12_concurrent(chk, 'asan')
     c12_concurrent(chk, 'tsan')
+    c12_concurrent(chk, 'omp')       # OpenMP build: evaluations from inside an OpenMP team, with the library's OpenMPExecutor
     chk.sample({'schedules': 'all permutations for N<=4 (sampled for N=5), random permutations above, reversed, 2/4/8 interleaved threads, 2/3 chunked threads'})
 
 
@@ -587,11 +592,12 @@ def c12_concurrent(chk, variant):
     """several threads evaluate concurrently on one configured optimizer, each with its own workspace; with and without a prior
     single-threaded call on the freshly configured optimizer"""
     rng = chk.rng
-    parts = ('opt_min',) if variant == 'tsan' else ('opt', 'ppoly', 'spline')
+    parts = ('opt_min',) if variant in ('tsan', 'omp') else ('opt', 'ppoly', 'spline')
     exe = build.build_harness(variant, parts)
     ncase = (6 if not chk.thorough() else 30)
     for q in range(ncase):
-        order, d = (5, 2) if variant == 'tsan' and (q // 2) % 2 == 0 else ((3, 1) if variant == 'tsan' else (rng.choice([3, 5, 7]), rng.choice([1, 2, 3])))
+        small = variant in ('tsan', 'omp')
+        order, d = (5, 2) if small and (q // 2) % 2 == 0 else ((3, 1) if small else (rng.choice([3, 5, 7]), rng.choice([1, 2, 3])))
         n = rng.choice([1, 3, 6])
         c = ol.rand_case(rng, order, d, n, k=500 + q % 40, steps=3, smType=(1 if d >= 2 and q % 3 == 0 else 0))
         prior = q % 2 == 0
@@ -905,6 +911,16 @@ def c16(chk):
                             'empty time points after a valid state, several errors at once; PPoly: <2 breakpoints, row-count mismatch, nc > fixed order, nc <= 0'})
 
 
+class _Tagged:
+    """the check object with every report prefixed (which build of the harness produced the reply)"""
+    def __init__(self, chk, tag):
+        self.__dict__['chk'] = chk; self.__dict__['tag'] = tag
+    def __getattr__(self, k): return getattr(self.__dict__['chk'], k)
+    def __setattr__(self, k, v): setattr(self.__dict__['chk'], k, v)
+    def violation(self, what, *a, **k): return self.__dict__['chk'].violation(self.__dict__['tag'] + what, *a, **k)
+    def mismatch(self, what, *a, **k): return self.__dict__['chk'].mismatch(self.__dict__['tag'] + what, *a, **k)
+
+
 # ----------------------------------------------------------------------------------------------- C17
 def c17(chk):
     rng = chk.rng
@@ -961,79 +977,88 @@ def c17(chk):
     for fn, args in replay:
         key = (fn,) + tuple(hx(a_) for a_ in args)
         lines.append(f'{rid} X tm 0 7 {fn} {" ".join(hx(a_) for a_ in args)}'); plan.append(('persistent', key)); rid += 1
-    cpp, _ = runner.run_harness(harness(), lines)
+    cpp_asan, _ = runner.run_harness(harness(), lines)
+    # the same requests on a build for this machine's instruction set (-O2 -march=native): feature-macro-guarded fast paths of the
+    # time map exist only there; the oracle below is applied to both builds
+    cpp_native, _ = runner.run_harness(build.build_harness('native', ('ppoly',)), lines)
     mod = runner.run_model_sharded(lines, 8)
     chk.evaluations += len(lines)
-    bad_state = 0
-    for q in range(base_n, len(lines)):
-        kind, key = plan[q]
-        if kind == 'persistent':
-            chk.count('persistent-object replay')
-            if cpp[str(q)]['r'] != cpp[str(fresh_rid[key])]['r'] and bad_state < 5:
-                bad_state += 1
-                chk.violation('a time map gives a different answer to the same request depending on the calls made before (state carried between calls)',
-                              {'function': key[0], 'arguments_hex': list(key[1:]), 'previous_requests': [l.split(' ', 2)[2] for l in lines[max(base_n, q - 3):q]]},
-                              {'persistent_object': cpp[str(q)]['r'], 'fresh_object': cpp[str(fresh_rid[key])]['r']})
-    plan = plan[:base_n]
-    toT = {}
-    for q, (kind, info) in enumerate(plan):
-        a, m = cpp[str(q)], mod[str(q)]
-        chk.count(kind)
-        va = parse_val(a['r'][0]); vm = re_part(parse_val(m['r'][0]))
-        if kind == 'toTime':
-            t = info
-            chk.cell('toTime', 'pos' if t > 0 else ('neg' if t < 0 else 'zero'), int(math.log10(abs(t))) if t else 0)
-            ex = ol.to_time(0, 0, t)
-            if isinstance(va, float) or abs(va - ex) > 4e-16 * abs(ex):
-                chk.violation('toTime is not the documented map', {'tau': t, 'tau_hex': hx(t)}, {'got': float(va), 'exact': float(ex)})
-            if vm != ex:
-                chk.mismatch('model toTime differs from the closed form', {'tau': t})
-            if not isinstance(va, float) and va <= 0:
-                chk.violation('toTime returned a non-positive duration', {'tau': t}, {'T': float(va)})
-            toT[t] = va
-        elif kind == 'backward':
-            t, g = info
-            chk.cell('backward', 'pos' if t > 0 else ('neg' if t < 0 else 'zero'), int(math.log10(abs(t))) if t else 0)
-            tt = Fr(t)
-            der = tt + 1 if tt > 0 else (1 - tt) / (((tt / 2 - 1) * tt + 1) ** 2)
-            ex = Fr(g) * der
-            if isinstance(va, float) or abs(va - ex) > 8e-16 * abs(ex):
-                chk.violation('backward does not multiply the incoming gradient by the derivative of the map', {'tau': t, 'tau_hex': hx(t), 'g': g},
-                              {'got': float(va), 'exact': float(ex)})
-            if vm != ex:
-                chk.mismatch('model backward differs from g * d(toTime)/dtau', {'tau': t})
-        elif kind == 'toTau':
-            T = info
-            chk.cell('toTau', '>1' if T > 1 else '<=1', int(math.log10(T)))
-            if a['r'] != m['r']:
-                d = abs(float(va) - float(vm))
-                if d > 4 * ulp(float(vm)) + 1e-300:
-                    chk.mismatch('toTau differs from the IEEE-double instance of the model (same operations)', {'T': T}, {'impl': float(va), 'model': float(vm)})
-            # inverse: toTime(toTau(T)) = T up to the rounding of the square root (relative, conditioned by dT/dtau)
-            back = ol.to_time(0, 0, float(va))
-            tauv = Fr(float(va))
-            der = tauv + 1 if tauv > 0 else (1 - tauv) / (((tauv / 2 - 1) * tauv + 1) ** 2)
-            allowed = 8 * (Fr(ulp(float(va))) * der + Fr(ulp(T)))
-            chk.disc('toTau_roundtrip_rel', abs(back - Fr(T)) / Fr(T))
-            if abs(back - Fr(T)) > allowed + Fr(T) * Fr(1, 10 ** 14):
-                chk.violation('toTau is not the inverse of toTime', {'T': T, 'T_hex': hx(T)}, {'tau': float(va), 'toTime(tau)': float(back)})
-        elif kind == 'ident':
-            if float(va) != info and not (info == 0 and float(va) == 0):
-                chk.violation('identity time map does not pass values through unchanged', {'x': info}, {'got': float(va)})
-        else:
-            if float(va) != info:
-                chk.violation('identity time map does not pass gradients through unchanged', {'g': info}, {'got': float(va)})
-    # monotone: non-decreasing between adjacent doubles, strictly increasing once arguments differ by more than rounding
-    ts = sorted(toT)
-    for x0, x1 in zip(ts, ts[1:]):
-        if isinstance(toT[x0], float) or isinstance(toT[x1], float):
-            continue
-        if toT[x1] < toT[x0]:
-            chk.violation('toTime is decreasing between two arguments', {'tau0': x0, 'tau1': x1, 'tau0_hex': hx(x0), 'tau1_hex': hx(x1)},
-                          {'T0': float(toT[x0]), 'T1': float(toT[x1])})
-        elif toT[x1] == toT[x0] and (x1 - x0) > 1e-12 * max(1.0, abs(x0), abs(x1)) and abs(x0) < 1e3 and (x1 - x0) > 64 * ulp(max(abs(x0), abs(x1), 1.0)) * max(1.0, float(toT[x0])):
-            chk.violation('toTime is not strictly increasing although the arguments differ by more than rounding', {'tau0': x0, 'tau1': x1},
-                          {'T': float(toT[x0])})
+    full_plan = plan
+    outer = chk
+    for tag, cpp in (('', cpp_asan), ('[build -O2 -march=native] ', cpp_native)):
+        chk = _Tagged(outer, tag)
+        plan = full_plan
+        bad_state = 0
+        for q in range(base_n, len(lines)):
+            kind, key = plan[q]
+            if kind == 'persistent':
+                chk.count('persistent-object replay')
+                if cpp[str(q)]['r'] != cpp[str(fresh_rid[key])]['r'] and bad_state < 5:
+                    bad_state += 1
+                    chk.violation('a time map gives a different answer to the same request depending on the calls made before (state carried between calls)',
+                                  {'function': key[0], 'arguments_hex': list(key[1:]), 'previous_requests': [l.split(' ', 2)[2] for l in lines[max(base_n, q - 3):q]]},
+                                  {'persistent_object': cpp[str(q)]['r'], 'fresh_object': cpp[str(fresh_rid[key])]['r']})
+        plan = plan[:base_n]
+        toT = {}
+        for q, (kind, info) in enumerate(plan):
+            a, m = cpp[str(q)], mod[str(q)]
+            chk.count(kind)
+            va = parse_val(a['r'][0]); vm = re_part(parse_val(m['r'][0]))
+            if kind == 'toTime':
+                t = info
+                chk.cell('toTime', 'pos' if t > 0 else ('neg' if t < 0 else 'zero'), int(math.log10(abs(t))) if t else 0)
+                ex = ol.to_time(0, 0, t)
+                if isinstance(va, float) or abs(va - ex) > 4e-16 * abs(ex):
+                    chk.violation('toTime is not the documented map', {'tau': t, 'tau_hex': hx(t)}, {'got': float(va), 'exact': float(ex)})
+                if vm != ex:
+                    chk.mismatch('model toTime differs from the closed form', {'tau': t})
+                if not isinstance(va, float) and va <= 0:
+                    chk.violation('toTime returned a non-positive duration', {'tau': t}, {'T': float(va)})
+                toT[t] = va
+            elif kind == 'backward':
+                t, g = info
+                chk.cell('backward', 'pos' if t > 0 else ('neg' if t < 0 else 'zero'), int(math.log10(abs(t))) if t else 0)
+                tt = Fr(t)
+                der = tt + 1 if tt > 0 else (1 - tt) / (((tt / 2 - 1) * tt + 1) ** 2)
+                ex = Fr(g) * der
+                if isinstance(va, float) or abs(va - ex) > 8e-16 * abs(ex):
+                    chk.violation('backward does not multiply the incoming gradient by the derivative of the map', {'tau': t, 'tau_hex': hx(t), 'g': g},
+                                  {'got': float(va), 'exact': float(ex)})
+                if vm != ex:
+                    chk.mismatch('model backward differs from g * d(toTime)/dtau', {'tau': t})
+            elif kind == 'toTau':
+                T = info
+                chk.cell('toTau', '>1' if T > 1 else '<=1', int(math.log10(T)))
+                if a['r'] != m['r']:
+                    d = abs(float(va) - float(vm))
+                    if d > 4 * ulp(float(vm)) + 1e-300:
+                        chk.mismatch('toTau differs from the IEEE-double instance of the model (same operations)', {'T': T}, {'impl': float(va), 'model': float(vm)})
+                # inverse: toTime(toTau(T)) = T up to the rounding of the square root (relative, conditioned by dT/dtau)
+                back = ol.to_time(0, 0, float(va))
+                tauv = Fr(float(va))
+                der = tauv + 1 if tauv > 0 else (1 - tauv) / (((tauv / 2 - 1) * tauv + 1) ** 2)
+                allowed = 8 * (Fr(ulp(float(va))) * der + Fr(ulp(T)))
+                chk.disc('toTau_roundtrip_rel', abs(back - Fr(T)) / Fr(T))
+                if abs(back - Fr(T)) > allowed + Fr(T) * Fr(1, 10 ** 14):
+                    chk.violation('toTau is not the inverse of toTime', {'T': T, 'T_hex': hx(T)}, {'tau': float(va), 'toTime(tau)': float(back)})
+            elif kind == 'ident':
+                if float(va) != info and not (info == 0 and float(va) == 0):
+                    chk.violation('identity time map does not pass values through unchanged', {'x': info}, {'got': float(va)})
+            else:
+                if float(va) != info:
+                    chk.violation('identity time map does not pass gradients through unchanged', {'g': info}, {'got': float(va)})
+        # monotone: non-decreasing between adjacent doubles, strictly increasing once arguments differ by more than rounding
+        ts = sorted(toT)
+        for x0, x1 in zip(ts, ts[1:]):
+            if isinstance(toT[x0], float) or isinstance(toT[x1], float):
+                continue
+            if toT[x1] < toT[x0]:
+                chk.violation('toTime is decreasing between two arguments', {'tau0': x0, 'tau1': x1, 'tau0_hex': hx(x0), 'tau1_hex': hx(x1)},
+                              {'T0': float(toT[x0]), 'T1': float(toT[x1])})
+            elif toT[x1] == toT[x0] and (x1 - x0) > 1e-12 * max(1.0, abs(x0), abs(x1)) and abs(x0) < 1e3 and (x1 - x0) > 64 * ulp(max(abs(x0), abs(x1), 1.0)) * max(1.0, float(toT[x0])):
+                chk.violation('toTime is not strictly increasing although the arguments differ by more than rounding', {'tau0': x0, 'tau1': x1},
+                              {'T': float(toT[x0])})
+    chk = outer
     chk.sample({'taus': taus[:6], 'Ts': Ts[:6]})
 
 
@@ -1076,6 +1101,8 @@ def c19(chk):
         order = (3, 5, 7)[q % 3]
         d = rng.choice([1, 2, 3]); n = rng.choice([1, 2, 3, 4])
         c = ol.rand_case(rng, order, d, n, k=800 + q % 90, steps=rng.choice([2, 4, 8]), rho=rng.choice([0.0, 0.0, 2.0 ** -12]))
+        if abs(c.t0) > 1e8:
+            c.t0 = 0.0          # finite differences of a cost in global time need a well-scaled start time (the stated domain of C19)
         # well-scaled costs: the finite-difference noise (about 1e-13 * |cost terms| / eps) must stay well below the tolerance 1e-4
         sp = ol.rand_spec(rng, zero_some=False)
         for f_ in ('ta', 'tb', 'tc', 'ww', 'wu', 'kp', 'kv'):
